@@ -302,7 +302,7 @@ func BuildQuery(hyps []*Term, goal *Term, opaque bool, abstract ...map[string]bo
 			var tb strings.Builder
 			printTerm(&tb, t, p)
 			n++
-			nm := fmt.Sprintf("t!%d", n)
+			nm := fmt.Sprintf("$def%d", n)
 			fmt.Fprintf(&body, "(define-fun %s () %s %s)\n", nm, t.Sort, tb.String())
 			p.names[t] = nm
 			if hasR {
